@@ -61,7 +61,7 @@ Proof. vm_compute. repeat split; reflexivity. Qed.
 (* F4-B: the context ends, the caller is inside cancel -> drain(source), then the
    generator panics: its write waits for the caller, the caller waits for close(source) *)
 Definition f4b_cfg (v : variant) : config :=
-  mkCfg v false 2%nat [UPanic 3] (fun _ => []) [URecvAll].
+  mkCfg v false 2%nat [UPanic 3] (fun _ => []) [].
 Definition f4b_sched : list label :=
   [LExec false; LExec false; LRed; LCtx] ++ rep 3 [LMain BCtx] ++ rep 4 [LGen] ++ rep 12 (LMain BOut :: others).
 
